@@ -60,8 +60,9 @@ def eval_scenario(scn: dict) -> dict:
     torch.set_num_threads(1)
     finds, evals, amb, nontrivial = [], 0, 0, []
     sexp, m, par = scn["sexp"], scn["m"], scn["par"]
-    for dtype in DTYPES:
-        for e in scn["exps"]:
+    combos = scn.get("_combos") or [(d, x) for d in DTYPES for x in scn["exps"]]
+    for dtype, e in combos:
+        if True:
             J = rr.build(scn["ja"], scn["jb"], sexp, e, dtype)
             where = f"{dtype}, J = 2^{e} * {_show(scn)}, corrupted rows {scn['corrupt']}"
             if scn["kind"] == "tm":
@@ -117,6 +118,13 @@ def _eval_safe(scn):
 
 
 def replay(ctx: Ctx, scns: list) -> None:
+    if ctx.tier == "quick" and len(scns) > 1:
+        # quick: TrimmedMean at all 6 (dtype, scale) combinations, Krum at 3 of them, rotating with the
+        # scenario so that every dtype and every scale is used on every third scenario at least
+        for i, s in enumerate(scns):
+            if s["kind"] == "krum":
+                ex = s["exps"]
+                s["_combos"] = [("float32", ex[i % 3]), ("float64", ex[(i + 1) % 3]), ("float32", ex[(i + 2) % 3])]
     results = pmap(_eval_safe, scns, chunksize=64)
     for scn, res in zip(scns, results):
         if "err" in res:
@@ -127,8 +135,11 @@ def replay(ctx: Ctx, scns: list) -> None:
         for nt in res["nontrivial"]:
             ctx.nontrivial(nt)
         for cl, k, dtype, e, what in res["finds"]:
+            ctx.count("violating_observations")
+            if len(ctx.violations) >= 100:          # enough to report; the rest is only counted
+                continue
             key = f"{cl}:{_sid(scn)}:k={k}:{dtype}:e={e}"
-            ctx.violation(key, what, {"kind": "scenario", "scenario": scn})
+            ctx.violation(key, what, {"kind": "scenario", "scenario": {kk: v for kk, v in scn.items() if kk != "_combos"}})
 
 
 # ----------------------------------------------------------------------------- C->S
